@@ -23,7 +23,7 @@ RULE = ("A case = format (2a / pack-0.92), a shared repository with 8-12 "
         "{commit x1-3 on its own branch, pack(), pack(clean_obsolete_packs), "
         "reader x1-2 rounds on one repository object, fetch of 1-3 outside "
         "revisions} and a schedule: the running actor keeps the baton except at "
-        "generated switch points - 0-6 (thorough 0-40) of them placed at the "
+        "generated switch points - 1-6 (thorough 1-40) of them placed at the "
         "n-th pack-names / lock / obsolete / rename operation of an actor, 0-3 "
         "at arbitrary global steps - and while polling a held lock. "
         "Non-trivial: a _save_pack_names that found pack-names changed since "
@@ -44,7 +44,7 @@ LEVEL_TEXT = ("Actor programs and schedules are sampled; the harness owns the "
 LEVEL_NOTE = ("Bounded number of pre-emptions per schedule; one process, so OS-"
               "level effects (open file handles on deleted packs, NFS rename "
               "semantics) are not modelled.")
-REGISTERED = False
+REGISTERED = True
 NONTRIVIAL_FLOOR = {"quick": 60, "thorough": 2000}
 
 F29 = "C05/pack-fails-NoSuchFile-copying-signature-texts-outside-retry"
